@@ -93,7 +93,9 @@ class RefDoc:
             ma = ''
             if markers and rng.below(2) and not in_clip:
                 ma = ' marker-%s="url(#%s)"' % (rng.choice(['start', 'mid', 'end']), rng.choice(markers)[1])
-            return '<path%s d="M %d %d L %d %d L %d %d" stroke="black"%s%s/>' % (ida, x, y, x + w, y, x + w, y + h, attrs, ma)
+            if ' stroke=' not in attrs:
+                attrs += ' stroke="black"'
+            return '<path%s d="M %d %d L %d %d L %d %d"%s%s/>' % (ida, x, y, x + w, y, x + w, y + h, attrs, ma)
         if in_clip:
             return '<rect%s x="%d" y="%d" width="%d" height="%d"%s/>' % (ida, x, y, w, h, attrs)
         inner = ''.join(self.shape(idx) for _ in range(1 + rng.below(2)))
